@@ -130,8 +130,8 @@ NoResidue == FinalResidue(img) = {}
 \* a recorded finding never hides anything but its own symptom
 FindingsNarrow == (Done /\ Kf(img) # {} /\ ~RecoveryOk(img, out)) => Symptom(img, out)
 \* a reopened WAL never serves a log with a gap: whatever it claims between FirstOffset and LastOffset is readable or
-\* its damage is reported (the zeroed size field in a closed segment with a lost index is the recorded exception)
-NoHole == (Done /\ ~KfRoZero(img)) => out.res # "hole"
+\* its damage is reported (a wholly zeroed LAST record of a closed segment with a lost index is the recorded exception)
+NoHole == (Done /\ ~KfRoWipedLast(img)) => out.res # "hole"
 \* every image handed to the harness is in the domain of the crash model
 ImagesWellFormed == phase # "pre" => ImageOK(img)
 
